@@ -11,6 +11,11 @@ CLAIMED = {
             "Generated histories (up to 40 steps, <= 8 live meshes) of ~55 public operations (Mesh methods, meshops, repeat, primitives, PLY/OBJ/glTF/STL writers) applied to drawn pool members, so several derivations branch off one base; after every step every live mesh is re-read through the accessors and compared bit for bit with the snapshot taken when it was obtained. Shrinks to a 5-step history for the Append defect. Sampling level (10^4..10^6 histories), not a proof.",
             "Trusted: oracle.Snapshot reads everything a mesh reports; operations that panic are no-ops for this property; aliasing needing > 40 steps or > 8 live values is out of reach.",
             "DESIGN.md §4 C01"),
+    "C02": ("exploration",
+            "property-based testing (rapid): generator parameterisations (small counts enumerated) and random operation chains against a well-formedness + accessor-walk validity predicate",
+            "Every one of 19 generator families over its accepted parameter range (rows/columns/sides grids enumerated exhaustively for small counts, sampled above) and chains of 1..8 operations from a 50-operation catalogue over generated well-formed meshes and earlier results must return meshes that pass oracle.WF (common attribute length, indices in range, index count fits topology, every primitive walkable) or report failure; a Go runtime error is a violation. Unmet preconditions are attempted only where the library checks them. Sampling level.",
+            "Trusted: oracle.WF, the precondition table in harness/internal/mops (implicit preconditions the library does not check are never violated).",
+            "DESIGN.md §4 C02"),
     "C03": ("exploration",
             "property-based testing (rapid): generated meshes x 33 operations against reference implementations over per-corner attribute tuples (bit-exact) and float64 maps",
             "Every layout operation is compared with a reference written from its contract over per-corner attribute tuples (exact by bit pattern, weld: first vertex of the rounding cell), every attribute transform with the stated per-vertex map plus 'indices, topology, materials and all other attributes bit-identical'; generator constructs non-identity indices, shared/duplicated/unreferenced vertices and mixed attribute arities. Sampling level.",
